@@ -4599,6 +4599,8 @@ impl WasmGenerator {
                     .map(|parent| Self::alloc_capture_should_be_indirect(&parent.to_type()))
                     .unwrap_or(true)
             }
+            // what an unresolved type variable becomes when the types are substituted
+            Type::Unknown => true,
             _ => false,
         }
     }
